@@ -82,7 +82,7 @@ static inline float vf_bits_float(uint32_t b) { float d; memcpy(&d, &b, 4); retu
 /* double division: bit-precise by default; a group may abstract it as an uninterpreted function
  * (sound over-approximation: whatever is proved holds for IEEE division too; used where the
  * proof only needs congruence a == b ==> 1/a == 1/b and SAT cannot decide two 53-bit dividers) */
-#if defined(VF_CBMC) && defined(VF_UF_FDIV)
+#if defined(VF_CBMC) && (defined(VF_UF_FDIV) || defined(VF_UF_FP))
 double __CPROVER_uninterpreted_fdiv(double, double);
 /* IEEE division is sign(a) xor sign(b) applied to |a| / |b| (exactly, for every operand pair that
  * does not give NaN); only the quotient of the magnitudes is abstracted */
@@ -110,6 +110,23 @@ static inline double vf_fdiv(double a, double b) {
 #define VF_FDIV(a, b) vf_fdiv((a), (b))
 #else
 #define VF_FDIV(a, b) ((a) / (b))
+#endif
+
+/* double +, -, *: bit-precise by default; with the group option uf_fp the lowering routes them
+ * through these macros and the proof treats them as uninterpreted functions (sound: what is proved
+ * for arbitrary functions holds for the IEEE operations; used where a postcondition is "the same
+ * expression of the same inputs" and SAT cannot decide the equivalence of two FP circuits) */
+#if defined(VF_CBMC) && defined(VF_UF_FP)
+double __CPROVER_uninterpreted_fadd(double, double);
+double __CPROVER_uninterpreted_fsub(double, double);
+double __CPROVER_uninterpreted_fmul(double, double);
+#define VF_FADD(a, b) __CPROVER_uninterpreted_fadd((a), (b))
+#define VF_FSUB(a, b) __CPROVER_uninterpreted_fsub((a), (b))
+#define VF_FMUL(a, b) __CPROVER_uninterpreted_fmul((a), (b))
+#else
+#define VF_FADD(a, b) ((a) + (b))
+#define VF_FSUB(a, b) ((a) - (b))
+#define VF_FMUL(a, b) ((a) * (b))
 #endif
 
 /* calling the function under contract: under CBMC the contract is enforced by --dfcc at this call;
